@@ -17,6 +17,7 @@ INVARIANT NoMisMatch
 INVARIANT FramingOk
 INVARIANT EidAgreement
 INVARIANT IdentityOk
+INVARIANT UnsuppAnswered
 INVARIANT SeenIsPrefix
 INVARIANT EnumerationComplete
 PROPERTY Terminates
